@@ -83,7 +83,7 @@ def floors(tier):
 MASKING = {
     "riscv": {"addi_ins", "slti_ins", "sltiu_ins", "xori_ins", "ori_ins", "andi_ins", "Lui", "Sb", "Sh", "Sw"},
     "riscv:rvc": {"addi_ins", "slti_ins", "sltiu_ins", "xori_ins", "ori_ins", "andi_ins", "Lui", "Sb", "Sh", "Sw",
-                  "CSlli", "CLw", "CSw", "CLwsp", "CAddi4spn", "CAddi16sp", "CSwsp", "CLi", "CLui"},
+                  "CSlli", "CLw", "CSw", "CLwsp", "CAddi4spn", "CAddi16sp", "CSwsp", "CLi", "CLui", "CAddi"},
     "arm": {"Strh", "Ldrsb", "Ldrh_imm", "Ldrsh_imm"},
     "arm:thumb": {"Ldr1", "Str1", "AddSp", "SubSp"},
     "or1k": {"Sb", "Sh", "Sw", "Swa"},
@@ -457,7 +457,7 @@ def run_reloc(spec):
                 ro = rcls(None, offset=rel.offset, addend=rel.addend)
                 n = ro.size()
                 buf = bytearray(data)
-                piece = ro.apply(P + d, bytearray(buf[rel.offset:rel.offset + n]), P + rel.offset)
+                piece = ro.apply(P + d + rel.addend, bytearray(buf[rel.offset:rel.offset + n]), P + rel.offset)   # S + A
                 assert len(piece) == n
                 buf[rel.offset:rel.offset + n] = piece
                 applied.append((k, ci, a, bytes(buf), rel, d, True, P))
